@@ -30,6 +30,10 @@ func (g *gen) lit(t Type, d int) string {
 		return "[]byte(" + g.expr(TStr, d+1) + ")"
 	case TAny:
 		inner := []Type{TStr, TStr, TPS, TSlice, TPStr, TS, TMap}[g.intn(7, "anyinner")]
+		if inner != TStr && g.off("iface-boxes-ref") {
+			// known finding: a reference boxed in an interface and mutated afterwards is not tracked
+			inner = TStr
+		}
 		return "any(" + g.expr(inner, d+1) + ")"
 	case TBox:
 		switch g.intn(3, "boxkind") {
@@ -38,6 +42,9 @@ func (g *gen) lit(t Type, d int) string {
 		case 1:
 			return "&BoxB{l: []string{" + g.expr(TStr, d+1) + "}}"
 		default:
+			if g.off("iface-boxes-ref") {
+				return "&BoxA{v: " + g.expr(TStr, d+1) + "}"
+			}
 			return "BoxC{p: " + g.expr(TPStr, d+1) + "}"
 		}
 	case TFunc:
